@@ -420,6 +420,10 @@ fn parse_json_event(input: &[u8], output: &mut [u8]) -> Result<(usize, usize), E
     const HAVE_TAGS: u8 = 0x1 << 6;
     let mut complete: u8 = 0;
 
+    // zero-padding (bytes 6..8 belong to no field; equality and hashing are byte-wise)
+    output[6] = 0;
+    output[7] = 0;
+
     eat_whitespace(input, &mut inpos);
     verify_char(input, b'{', &mut inpos)?;
     loop {
